@@ -96,6 +96,10 @@ func runC01(c *ctx) error {
 		}
 		with := &world.History{Level: 1, Pub: pub}
 		without := &world.History{Level: 1, Pub: legit}
+		if i%3 == 1 {
+			// part of the history reaches the processor through WithAdditionalOperations
+			r.Count("via_additional_operations_option", fmt.Sprint(with.ViaOption(env.rng) > 0))
+		}
 		ocW := with.Run(env.pc, env.tb, oidOf)
 		ocO := without.Run(env.pc, env.tb, oidOf)
 		countLetters(r, evs)
@@ -173,6 +177,10 @@ func runC02(c *ctx) error {
 		var refH *world.History
 		tryPerm := func(pp, up []world.Placed) {
 			h := &world.History{Level: 1, Pub: pp, Unpub: up}
+			if perms%3 == 1 {
+				// part of the (permuted) history reaches the processor through WithAdditionalOperations
+				r.Count("via_additional_operations_option", fmt.Sprint(h.ViaOption(env.rng) > 0))
+			}
 			oc := h.Run(env.pc, env.tb, oidOf)
 			perms++
 			desc := descHistory(h, evs, oc)
@@ -280,6 +288,9 @@ func runC04(c *ctx) error {
 		pub, _ := d.Place(full, o)
 		hBase := &world.History{Level: 1, Pub: pub[:base]}
 		hFull := &world.History{Level: 1, Pub: pub}
+		if i%3 == 1 {
+			r.Count("via_additional_operations_option", fmt.Sprint(hFull.ViaOption(env.rng) > 0))
+		}
 		ocB := hBase.Run(env.pc, env.tb, oidOf)
 		ocF := hFull.Run(env.pc, env.tb, oidOf)
 		countLetters(r, full)
@@ -302,6 +313,25 @@ func runC04(c *ctx) error {
 				r.Count("decorator", res)
 				if res == "accepted" || strings.HasPrefix(res, "panic") {
 					r.Direct = append(r.Direct, out.Direct{Oracle: "decorator_refuses_after_deactivate", What: "decorator answered " + res, Case: desc})
+				}
+			}
+		}
+		// a node with an unpublished-operation store: the deactivate is (a) accepted but not yet anchored, (b) anchored
+		// with its unpublished copy still in that store - in both the DID resolves as deactivated and intake refuses
+		if ocB.Deact && base >= 2 && pub[base-1].Op.Spec.Type == operation.TypeDeactivate {
+			pend := pub[base-1]
+			pend.CRef = 0
+			for vi, variant := range [][2][]world.Placed{{pub[:base-1], {pend}}, {pub[:base], {pend}}} {
+				for _, e := range ext {
+					if e.Op.Spec.Type == operation.TypeCreate || e.Op.Request == nil {
+						continue
+					}
+					res := world.IntakeDecorateUnpub(env.pc, variant[0], variant[1], e.Op)
+					r.Count("decorator_with_unpublished_store", fmt.Sprint("variant", vi, ":", res))
+					if res == "accepted" || strings.HasPrefix(res, "panic") {
+						r.Direct = append(r.Direct, out.Direct{Oracle: "decorator_refuses_after_deactivate",
+							What: fmt.Sprintf("node with an unpublished-operation store (deactivate %s): %s", []string{"pending only", "anchored, copy still pending"}[vi], res), Case: desc})
+					}
 				}
 			}
 		}
@@ -362,6 +392,18 @@ func runC06(c *ctx) error {
 			TimeDelta: env.dl, SharedTime: i%2 == 0}
 		evs := d.GenEvents(o)
 		pub, unpub := d.Place(evs, o)
+		if i%6 == 5 {
+			// nothing is anchored yet: the whole history sits in the unpublished-operation store; versions by time still apply
+			for _, p := range pub {
+				p.CRef = 0
+				unpub = append(unpub, p)
+			}
+			sort.SliceStable(unpub, func(a, b int) bool {
+				return unpub[a].Time < unpub[b].Time || (unpub[a].Time == unpub[b].Time && unpub[a].Num < unpub[b].Num)
+			})
+			pub = nil
+			r.Count("history_placement", "everything-unpublished")
+		}
 		pubS := world.Shuffle(env.rng, pub)
 		countLetters(r, evs)
 		// cut times: each op time, between, before first, after last
@@ -545,9 +587,13 @@ func runC12(c *ctx) error {
 	for i := 0; i < n; i++ {
 		d := world.NewDID(env.kp, env.tb, env.rng, world.SHA256)
 		evs, note := world.CycleHistory(d, env.rng)
-		o := world.GenOpts{TimeDelta: env.dl}
-		pub, _ := d.Place(evs, o)
-		h := &world.History{Level: 1, Pub: world.Shuffle(env.rng, pub), Note: note}
+		o := world.GenOpts{TimeDelta: env.dl, Unpublished: (i % 3) * 2}
+		pub, unpubC := d.Place(evs, o)
+		h := &world.History{Level: 1, Pub: world.Shuffle(env.rng, pub), Unpub: unpubC, Note: note}
+		r.Count("cycle_history_unpublished_tail", fmt.Sprint(len(unpubC)))
+		if i%3 == 1 {
+			r.Count("via_additional_operations_option", fmt.Sprint(h.ViaOption(env.rng) > 0))
+		}
 		oc := world.RunWithTimeout(h, env.pc, env.tb, oidOf)
 		countLetters(r, evs)
 		r.Count("cycle_shape", note)
